@@ -167,12 +167,13 @@ class TokenTree:
         :param up_to: the token to work back from to the root of the tree.
         """
         if up_to:
-            # End specified, move back to the root
+            # End specified, move back to the root. Emit parents before their children: a receiver never has to park
+            # more tokens than its bounded waiting area holds.
             out = up_to.get_plaintext_signed()
             next_token = up_to.previous_token_hash
             while next_token in self.elements:
                 token = self.elements[next_token]
-                out += token.get_plaintext_signed()
+                out = token.get_plaintext_signed() + out
                 next_token = token.previous_token_hash
             return out
         # Do the full tree dump.
